@@ -534,6 +534,14 @@ AnyP::Uri::parse(const HttpRequestMethod& method, const SBuf &rawUrl)
         while ((l = strlen(foundHost)) > 0 && foundHost[--l] == '.')
             foundHost[l] = '\0';
 
+        // The host may have become empty only now ("http://./", "http://:80/",
+        // CONNECT ".:443"), and Uri::host() silently truncates names that do
+        // not fit its SQUIDHOSTNAMELEN buffer.
+        if (!*foundHost || strlen(foundHost) >= SQUIDHOSTNAMELEN) {
+            debugs(23, 3, "Missing or too long hostname in '" << rawUrl << "'");
+            return false;
+        }
+
         /* reject duplicate or leading dots */
         if (strstr(foundHost, "..") || *foundHost == '.') {
             debugs(23, DBG_IMPORTANT, MYNAME << "Illegal hostname '" << foundHost << "'");
